@@ -252,7 +252,7 @@ func (b Service) VerifySessionTokenMessage(mV2 *protosession.SessionTokenV2, req
 		return sessionv2.Token{}, err
 	}
 
-	currentTime := b.chainTime.Now().Round(time.Second)
+	currentTime := b.chainTime.Now().Truncate(time.Second)
 	if sToken.Exp().Before(currentTime) {
 		return sessionv2.Token{}, apistatus.ErrSessionTokenExpired
 	}
